@@ -30,7 +30,7 @@ func c02SourceCopied(c *Ctx, k *core, cp *copier, rule string) {
 			okc = call.Block() == ci.Block() || inLoop(call)
 			fSlotVal := w.field("", "sourceValue", "value")
 			a := call.Call.Args[len(call.Call.Args)-1]
-			okc = okc && derivesAll(a, func(x ssa.Value) bool { _, ok := isFieldLoad(x, fSlotVal); return ok }, &flowOpts{through: map[string]bool{"(reflect.Value).Elem": true}})
+			okc = okc && derivesAll(a, func(x ssa.Value) bool { _, ok := isFieldLoad(x, fSlotVal); return ok }, &flowOpts{through: map[string]bool{"(reflect.Value).Elem": true, "reflect.Indirect": true}})
 		}
 		c.check(okc, rule, relName(k.compose), ci.Pos(), "the overlay operand is a fresh deep copy of the slot value",
 			"the overlay operand is not (on every path) a per-stack deep copy of the slot value: versions would alias the source's value and each other")
@@ -473,14 +473,32 @@ func c03ValueRecursion(c *Ctx, rule string) {
 		n := 0
 		for _, ci := range callsToFn(of, merge) {
 			call := ci.(*ssa.Call)
-			el, ok := call.Call.Args[2].(*ssa.Call)
-			if !ok || calleeFullName(el) != "(reflect.Value).Elem" || el.Call.Args[0] != ssa.Value(ovp) {
+			// the operand: overlay.Elem(), or a join of overlay.Elem() and the overlay itself (a "pointee if it is a
+			// pointer" helper written out)
+			var el *ssa.Call
+			leaves := []ssa.Value{call.Call.Args[2]}
+			if ph, isPhi := call.Call.Args[2].(*ssa.Phi); isPhi {
+				leaves = ph.Edges
+			}
+			otherLeaf := false
+			for _, lf := range leaves {
+				if lc, ok := lf.(*ssa.Call); ok && calleeFullName(lc) == "(reflect.Value).Elem" && lc.Call.Args[0] == ssa.Value(ovp) {
+					el = lc
+				} else if lf != ssa.Value(ovp) {
+					otherLeaf = true
+				}
+			}
+			if el == nil || otherLeaf {
 				continue
 			}
 			// nil-base arm: reached only with pointerified (pointer) overlays — the by-value struct comes from
 			// overlayInterface's struct arm, which allocates and deep-copies a non-nil base first
 			nilBase, kindPtr := false, false
-			for _, ec := range condsDominating(call.Block()) {
+			domConds := condsDominating(call.Block())
+			if el.Block() != call.Block() {
+				domConds = append(domConds, condsDominating(el.Block())...)
+			}
+			for _, ec := range domConds {
 				if cc, ok := ec.Cond.(*ssa.Call); ok && ec.Val && calleeFullName(cc) == "(reflect.Value).IsNil" && cc.Call.Args[0] == ssa.Value(of.Params[1]) {
 					nilBase = true
 				}
@@ -616,6 +634,14 @@ func c02CopierPerUse(c *Ctx, cp *copier, rule string) {
 				}
 				if _, ok := x.X.(*ssa.Global); ok {
 					return false, "it is kept in a package variable"
+				}
+				// the copier taken by value through its pointer (value receivers): the copy shares the memo maps, so
+				// it is as fresh as what the pointer refers to
+				if pt, ok := x.X.Type().Underlying().(*types.Pointer); ok && namedTypeName(pt.Elem()) == ".deepCopier" {
+					switch x.X.(type) {
+					case *ssa.Call, *ssa.Phi, *ssa.Parameter, *ssa.UnOp:
+						return fresh(x.X, site, depth+1)
+					}
 				}
 			}
 		case *ssa.Alloc:
